@@ -7,7 +7,7 @@ import os
 from pathlib import Path
 
 from vf.core import SECTOR, ConcatModel, Model, as_handle, rng_for
-from vf.diskcheck import compare_reads, gen_requests, mismatch_detail
+from vf.diskcheck import compare_reads, continuation_reads, fault_retry_reads, gen_requests, mismatch_detail
 from vf.monitors import call
 from vf.writers import hds as whds
 from vf.writers import vmdk as w
@@ -17,6 +17,7 @@ LEVEL = "exploration"
 CONTRACTS = True  # icontract postconditions on AlignedStream.read/peek/seek fire during this workload too
 STEP_BUDGET = 20_000_000
 HANDLE_CLOSE_CHECK = True
+OPEN_INTERPOSE = True  # files the library opens by path (parents, extents, bundle images) are wrapped in observing proxies
 ANCHOR_FILES = ["dissect/hypervisor/disk/vmdk.py", "dissect/hypervisor/disk/hdd.py"]
 RULE = (
     "Disks assembled from several backing files on real temp directories: VMDK descriptors naming 1..8 extents of "
@@ -192,6 +193,8 @@ def run(case: dict, ctx) -> dict:
                         a = max(0, b - rng.randrange(1, 20000))
                         reqs.append((a, rng.randrange(b - a + 1, b - a + 30000)))
                 reqs.append((max(0, model.size - 5000), 99999))
+                fault_retry_reads(v, model, reqs, rng, res, MECH, n=4)
+                continuation_reads(v, model, reqs, rng, res, MECH, n=6)
                 compare_reads(v, model, reqs, res, MECH)
                 cnt["boundary_straddling_requests"] = sum(1 for o_, n_ in reqs for b in bounds[:-1] if o_ < b < o_ + n_)
                 total = sum(caps)
@@ -279,6 +282,8 @@ def run(case: dict, ctx) -> dict:
         for _ in range(3):
             a = max(0, b - rng.randrange(1, 20000))
             reqs.append((a, rng.randrange(b - a + 1, b - a + 30000)))
+    fault_retry_reads(st, model, reqs, rng, res, MECH, n=4)
+    continuation_reads(st, model, reqs, rng, res, MECH, n=6)
     compare_reads(st, model, reqs, res, MECH)
     cnt["boundary_straddling_requests"] = sum(1 for o_, n_ in reqs for b in bounds[:-1] if o_ < b < o_ + n_)
     cnt["hdd_cases"] = 1
